@@ -16,7 +16,7 @@ LEVEL = "exploration"
 RULE = ("texts of grammar G (DESIGN section 3): (1) model programs of vf/gen.py rendered under a drawn style, with 0-3 catalogued faults "
         "planted and 0-8 token/character level mutations; (2) windows of 5-60 lines of the practice corpus and the source snippets of "
         "tests/test_compiler.py under the same mutations; (3, thorough tier) a coverage-guided atheris campaign whose bytes select a seed "
-        "text and a mutation sequence; (4) a statement grid, enumerated: every directive, 20 mnemonics and 22 other statement heads x 87 "
+        "text and a mutation sequence; (4) a statement grid, enumerated: every directive, 20 mnemonics and 29 other statement heads x 100 "
         "operand shapes (single operands in four contexts: plain, .repeat body, .repeat with an address-dependent count, after .link; "
         "operand pairs with ', ' and ' ' between them - all in the thorough tier, a seed-chosen eighth in the quick tier). Every text is assembled under FilterHandler(BareHandler) and FilterHandler(GraphicalHandler); the "
         "outcome must be success or failure with >= 1 error diagnostic. Violations: any other exception (what main_cli prints as "
@@ -264,9 +264,10 @@ GRID_OPERANDS = ["", "1", "x", "lab", "undef", "#1", "#x", "@#x", "@#lab", "(r1)
                  "(1)", "(1)+2", "(x)*2", "(1)(2)", "(x)", "<1>", "<x+1>", "<lab>", "x+", "-x", "-lab", "1$", "1:", "\"ab\"", "'a'", "'a", "/ab/", "\"ab\"<12>",
                  "^Rabc", "^X1f", "^B101", "^C1", "1.", "0x1f", "8", "r1", "%1", "%x", "%lab", "ac1", "sp", "{ nop }", "{ .word . }", "all", ".", ".+2", "x==1", "x=1", "a b",
                  "10/0", "x/lab", "lab/2", "lab*2", "1<<x", "lab-lab", "lab+lab", "x:", "@@x", "##1", "@r1", "@lab", "(lab)", "lab(r1)", "(r1)(r2)", "-(1)", "#", "@", ",",
-                 "<20000000000000>", "/zz/<20000000000000>", "<-1>", "^R\u212a", "^Ra\u017f", "\"\u0131\"", "'\u212a", "1\u00b2", "\u0d6f", "<0>", "/a/<0>/b/"]
+                 "<20000000000000>", "/zz/<20000000000000>", "<-1>", "^R\u212a", "^Ra\u017f", "\"\u0131\"", "'\u212a", "1\u00b2", "\u0d6f", "<0>", "/a/<0>/b/",
+                 "<50><47>", "<50>/99/", "<47><47><47>", "<50>", "\u017f", "#\u017f", "/\u017f/", "<177777>", "<200000>", "-1", "177777", "200000", "-200000"]
 GRID_MNEMONICS = ["nop", "clr", "mov", "jsr", "mul", "xor", "br", "sob", "rts", "spl", "mark", "emt", "ldf", "stf", "ldexp", "stcfi", "push", "call", "jmp", "cmpb"]
-GRID_OTHER = ["x", "lab", "undef", "1", "-1", "'a", ".", "x:", "1$:", "x =", "x ==", "lab::", "lab =", ". =", "1$", "r1", "%", "#1", "@x", "(x)", "<x>", "\"ab\""]
+GRID_OTHER = ["t\u017ft", "\u017fob", ".a\u017fcii", "\u017f", "\u017f:", "\u017f =", ".lin\u212a", "x", "lab", "undef", "1", "-1", "'a", ".", "x:", "1$:", "x =", "x ==", "lab::", "lab =", ". =", "1$", "r1", "%", "#1", "@x", "(x)", "<x>", "\"ab\""]
 GRID_CONTEXTS = ["plain", "repeat", "lazy-repeat", "linked"]
 
 
@@ -279,7 +280,7 @@ def grid_heads():
 
 def grid_text(head, ops, sep, context):
     stmt = head + (" " if ops and ops[0] else "") + sep.join(ops)
-    pre = "x = 5\nlab:\tnop\n"
+    pre = "x = 5\ns = 3\nlab:\tnop\n"
     post = "\t.word x, lab\n"
     if context == "plain":
         return pre + "\t" + stmt + "\n" + post
